@@ -103,7 +103,7 @@ func litsOf(body *ast.BlockStmt, consts map[string]string) []string {
 				}
 			case *ast.Ident:
 				if s, ok := consts[v.Name]; ok {
-					res = append(res, "$"+v.Name+"="+s)
+					res = append(res, s) // a named constant: its value
 				}
 			}
 			return true
